@@ -103,6 +103,8 @@ QUICK = [
     VCfg("f", 16, "TC12", "none", "uint8_t", "v8"),
     # element whose move operations are not noexcept (the noexcept(false) variants of every helper), partner with a narrower size_type
     VCfg("v", 0, "NTRTM", "basic", "uint32_t", "s8_4"),
+    # C++20: operator<=>, erase / erase_if
+    VCfg("s", 3, "NTR", "basic", "uint32_t", "v", std="c++20"),
 ]
 
 THOROUGH_EXTRA = [
